@@ -267,7 +267,7 @@ def run_sequence(case, seed, length, start, allow_tf, plan=None):
                     d0, m0, c0 = arrays(built.body); d1, m1, c1 = arrays(again.body)
                     if hv(again.header) != hv(built.header):
                         out["history"] = "the header of the start pose's file reads back differently after operations on the pose read from it"
-                    elif d0.shape != d1.shape or not np.array_equal(m0, m1) or not np.array_equal(np.where(m0, 0, d0).astype(np.float32), np.where(m1, 0, d1).astype(np.float32)):
+                    elif d0.shape != d1.shape or not np.array_equal(m0, m1) or not np.array_equal(np.where(m0, 0, d0).astype(np.float32), np.where(m1, 0, d1).astype(np.float32), equal_nan=True):
                         out["history"] = "the body of the start pose's file reads back differently after operations on the pose read from it"
                 except Exception as e:
                     out["history"] = "the start pose's file can no longer be read: %s" % type(e).__name__
